@@ -459,7 +459,9 @@ Definition resp_eqb (a b : resp) : bool :=
    /v1/refreshRoleRequestingCert (roleRequestingCert.go refreshRoleRequestingCertGenHandler,
    parseRefreshRoleCertGenParams): renewal of a role-requesting certificate by its holder.
 
-     checkAuth(w, r, AuthTypeIPCertificate)         [authenticate_ip refresh_required]
+     checkAuth(w, r, AuthTypeIPCertificate)         [authenticate_ip refresh_required; ip_cert_admitted: the
+                                                     CN must be an automation user — 403 otherwise, 500 if
+                                                     the directory fails]
      r.Method != "POST" -> 405
      identityName := authData.Username               the CN of the presented certificate — the form is
                                                      NOT consulted: [r_target] (the form's "identity",
@@ -479,8 +481,17 @@ Definition refresh_required : N := bIPCert.
    role CA for CN u, presented from inside the certificate's netblocks (C11 is about that test) *)
 Definition authenticate_ip (required : N) (cr : cred) : option (name * N) :=
   match cr with
-  | IPCert u => if hasb required bIPCert then Some (u, bIPCert) else None
+  | IPCert u => if hasb required bIPCert && negb (empty u) then Some (u, bIPCert) else None
   | x => authenticate required x
+  end.
+
+(* app.go getUsernameIfIPRestricted, inside checkAuth: the CN of an IP-restricted certificate must itself be an
+   automation user (isAutomationUser: error -> 500, no -> 403 "Bad username for ip restricted cert") — a
+   certificate whose CN is not (or no longer) a configured automation identity is no credential *)
+Definition ip_cert_admitted (c : cfg) (cr : cred) (dir : answer) : option bool :=
+  match cr with
+  | IPCert u => is_automation_user c u dir
+  | _ => Some true
   end.
 
 Definition from_ip_certificate (cr : cred) : bool := match cr with IPCert _ => true | _ => false end.
@@ -489,6 +500,10 @@ Definition refresh_step (c : cfg) (s : store) (r : request) : store * resp * opt
   match authenticate_ip refresh_required (resolve c (r_cred r)) with
   | None => (s, RDenied, None)
   | Some (actor, _) =>
+      match ip_cert_admitted c (resolve c (r_cred r)) (r_dir_target r) with
+      | None => (s, RErr, None)
+      | Some false => (s, RDenied, None)
+      | Some true =>
       if negb (r_post r) then (s, RBad, None)
       else if empty actor then (s, RBad, None)
       else match is_automation_user c actor (r_dir_target r) with
@@ -499,6 +514,7 @@ Definition refresh_step (c : cfg) (s : store) (r : request) : store * resp * opt
                else if negb (from_ip_certificate (resolve c (r_cred r))) then (s, RBad, None)
                else (s, ROk, Some actor)
            end
+      end
   end.
 
 (* NOT the server's code (contrast only): the identity is taken from the form when the form has one,
@@ -507,7 +523,8 @@ Definition refresh_honours_form (c : cfg) (s : store) (r : request) : store * re
   match authenticate_ip refresh_required (resolve c (r_cred r)) with
   | None => (s, RDenied, None)
   | Some (actor, _) =>
-      if negb (r_post r) then (s, RBad, None)
+      if negb (memn actor (automation_users c)) then (s, RDenied, None)   (* the gate's test, for holders configured by name *)
+      else if negb (r_post r) then (s, RBad, None)
       else let id := if empty (r_target r) then actor else r_target r in
            if empty id then (s, RBad, None)
            else match is_automation_user c id (r_dir_target r) with
